@@ -174,6 +174,12 @@ class SciPySampler(Sampler):
     def _generate_qmc_samples(
         self, realization_count: int, perturbation_count: int, sample_dim: int
     ) -> NDArray[np.float64]:
+        if sample_dim == 0:
+            # None of the variables are handled by this sampler.
+            return np.zeros(
+                (realization_count, perturbation_count, 0), dtype=np.float64
+            )
+
         def _run_qmc_engine() -> NDArray[np.float64]:
             return np.array(
                 scale(
